@@ -325,72 +325,101 @@ def finish(prop, tier, seed, t0, build, findings, coverage, assumptions, broken=
 
 # ------------------------------------------------------------------ watchdog pool (for code that cannot be interrupted)
 
-def _wd_worker(fn, inq, outq):
+def _wd_worker(fn, conn):
     while True:
-        item = inq.get()
+        try:
+            item = conn.recv()
+        except EOFError:
+            return
         if item is None:
             return
         i, case = item
-        outq.put(('start', i, os.getpid()))
         try:
             r = fn(case)
         except Exception:
             import traceback
             r = 'harness raised: ' + traceback.format_exc()[-300:]
-        outq.put(('done', i, r))
+        conn.send((i, r))
 
 
 def run_with_watchdog(fn, cases, limit_s, procs=None):
     """fn(case) -> result, in worker processes; a case that runs longer than limit_s wall seconds gets the result
-    ('TIMEOUT', limit_s) and its worker is killed (regular-expression matching ignores signals)"""
+    ('TIMEOUT', limit_s) and its worker is killed (regular-expression matching ignores signals).  Every worker has
+    its own pipe: killing one cannot leave a lock of a shared queue held."""
     import multiprocessing as mp
-    import queue as _q
+    from multiprocessing.connection import wait
     ctx = mp.get_context('fork')
-    procs = procs or NPROC
-    inq, outq = ctx.Queue(), ctx.Queue()
-    for item in enumerate(cases):
-        inq.put(item)
-    workers = {}
+    procs = min(procs or NPROC, max(1, len(cases)))
+    results = [None] * len(cases)
+    todo = list(enumerate(cases))[::-1]
+    workers = {}          # parent connection -> [process, index or None, start time]
 
     def spawn():
-        p = ctx.Process(target=_wd_worker, args=(fn, inq, outq))
+        a, b = ctx.Pipe()
+        p = ctx.Process(target=_wd_worker, args=(fn, b))
         p.daemon = True
         p.start()
-        workers[p.pid] = p
+        b.close()
+        workers[a] = [p, None, 0.0]
+        feed(a)
+
+    def feed(conn):
+        w = workers[conn]
+        if todo:
+            i, case = todo.pop()
+            w[1], w[2] = i, time.time()
+            conn.send((i, case))
+        else:
+            w[1] = None
+            try:
+                conn.send(None)
+            except (BrokenPipeError, OSError):
+                pass
+
     for _ in range(procs):
         spawn()
-    results = [None] * len(cases)
-    running = {}          # pid -> (index, start time)
     done = 0
     while done < len(cases):
-        try:
-            msg = outq.get(timeout=0.5)
-            if msg[0] == 'start':
-                running[msg[2]] = (msg[1], time.time())
-            else:
-                results[msg[1]] = msg[2]
-                done += 1
-                for pid, (i, _) in list(running.items()):
-                    if i == msg[1]:
-                        del running[pid]
-        except _q.Empty:
-            pass
-        now = time.time()
-        for pid, (i, t0) in list(running.items()):
-            if now - t0 > limit_s:
-                p = workers.pop(pid, None)
-                if p is not None:
-                    p.kill()
-                    p.join()
-                del running[pid]
+        busy = [c for c, w in workers.items() if w[1] is not None]
+        if not busy:
+            break
+        for conn in wait(busy, timeout=0.5):
+            w = workers[conn]
+            try:
+                i, r = conn.recv()
+            except (EOFError, OSError):
+                # the worker died (e.g. killed by the OS): count the case as failed
+                i, r = w[1], 'harness: worker died'
+                w[0].kill()
+                w[0].join()
+                del workers[conn]
                 if results[i] is None:
-                    results[i] = ('TIMEOUT', limit_s)
+                    results[i] = r
                     done += 1
                 spawn()
-    for _ in workers:
-        inq.put(None)
-    for p in workers.values():
-        p.join(timeout=2)
-        if p.is_alive():
-            p.kill()
+                continue
+            if results[i] is None:
+                results[i] = r
+                done += 1
+            feed(conn)
+        now = time.time()
+        for conn, w in list(workers.items()):
+            if w[1] is not None and now - w[2] > limit_s:
+                w[0].kill()
+                w[0].join()
+                del workers[conn]
+                conn.close()
+                if results[w[1]] is None:
+                    results[w[1]] = ('TIMEOUT', limit_s)
+                    done += 1
+                spawn()
+    for conn, w in workers.items():
+        try:
+            conn.send(None)
+        except Exception:
+            pass
+    for conn, w in workers.items():
+        w[0].join(timeout=2)
+        if w[0].is_alive():
+            w[0].kill()
     return results
